@@ -155,7 +155,7 @@ def run_dfa(pid, unit, tier, seed, keep=False):
     try:
         engine.copy_repo(s)
         try:
-            results, expand_cmd = dfa.check_all(s, w, tier=tier, rlimit=unit.get("rlimit", 600))
+            results, expand_cmd = dfa.check_all(s, w, tier=tier, rlimit=unit.get("rlimit", 600), only=unit.get("only"))
         except Exception as e:
             out["undecided"].append({"what": "C01 pipeline could not run: %s" % e})
             return out
@@ -210,6 +210,50 @@ def run_dfa(pid, unit, tier, seed, keep=False):
         return out
     finally:
         shutil.rmtree(s, ignore_errors=True)
+        if not keep:
+            shutil.rmtree(w, ignore_errors=True)
+
+
+def run_lang(pid, unit, tier, seed, keep=False):
+    """C13: grammar facts between the RFC reference automata, each a Verus-checked certificate (tools/langlemmas.py)"""
+    import langlemmas, dfa
+    t0 = time.time()
+    out = {"kind": "lang", "name": unit.get("name", "language facts (automata certificates)"), "backend": "Verus 0.2026.09.13 / Z3 (bundled); reachable product states by BFS (python, untrusted: checked by the lemmas)",
+           "violations": [], "undecided": [], "samples": [], "functions": [], "bounded": [], "obligations": 0, "discharged": 0}
+    w = engine.scratch_root()
+    try:
+        # the HasScheme automaton used by the in-crate lemma must be the generator's
+        txt = open(os.path.join(engine.CONTRACTS, "11_langs.rs")).read()
+        gen = dfa._step_spec("HasScheme", langlemmas.has_scheme_dfa())
+        if gen not in txt:
+            out["undecided"].append({"what": "contracts/11_langs.rs does not contain the HasScheme automaton the certificate generator emits (regenerate it)"})
+            return out
+        res = langlemmas.check_all(w, rlimit=unit.get("rlimit", 600))
+        smt = 0.0
+        for r in res:
+            n = (r.get("lemmas") or 1) + 1
+            out["obligations"] += n
+            smt += r.get("smt_s") or 0
+            ob = "lang::fact_%s" % r["fact"]
+            if r["status"] == "proved":
+                out["discharged"] += n
+                out["samples"].append({"fact": r["fact"], "statement": "%s <= %s" % (" /\\ ".join(r["antecedents"]), r["consequent"]), "product_states": r.get("tuples"), "lemmas": r.get("lemmas"), "smt_s": r.get("smt_s")})
+            elif r["status"] == "false":
+                text = "".join(chr(c) for c in r["witness"]).encode("utf-8")
+                out["violations"].append({"obligation": ob, "message": "the fact is FALSE on the reference automata: %s; witness %r" % (r["meaning"], text.decode("utf-8", "replace")),
+                                          "kind": "lemma", "function": None, "verifier_output": "", "input": {"op": "text", "text_hex": text.hex(), "text": text.decode("utf-8", "replace")}})
+            elif r["status"] == "timeout":
+                out["undecided"].append({"what": "certificate %s timed out" % r["fact"]})
+            else:
+                out["undecided"].append({"what": "certificate %s rejected by Verus (generator/BFS defect, not a property violation): %s" % (r["fact"], (r.get("stderr") or "")[-300:])})
+        out["functions"] = ["fact_%s" % f[0] for f in langlemmas.FACTS]
+        out["checker_cmd"] = "verus fact_<name>.rs --rlimit %s  (%d files generated by tools/langlemmas.py from /verif/spec/*.abnf)" % (unit.get("rlimit", 600), len(res))
+        out["smt_time_s"] = round(smt, 1)
+        out["trusted_base"] = ["Verus + Z3", "/verif/spec/rfc3986.abnf, rfc3987.abnf and tools/abnf.py (same reference automata as C01: an error there shows up in C01 as a mismatch with the generated validators)",
+                               "hand-built automata HasScheme / Ascii / NotColonFirst (3, 1 and 2 states) mean what their names say"]
+        out["wall_s"] = round(time.time() - t0, 1)
+        return out
+    finally:
         if not keep:
             shutil.rmtree(w, ignore_errors=True)
 
